@@ -116,6 +116,12 @@ func stalePath(root, v ssa.Value) ([]string, bool) {
 			v = x.X
 		case *ssa.Convert:
 			v = x.X
+		case *ssa.UnOp:
+			// a load of a pointer field: the object it points to is counted with the field
+			if x.Op != token.MUL || !pointerLike(x.Type()) {
+				return nil, false
+			}
+			v = x.X
 		default:
 			return nil, false
 		}
@@ -244,7 +250,7 @@ func (e *staleEngine) analyse(f *ssa.Function, root ssa.Value) *staleSummary {
 					add(staleEvent{write: true, leaves: lv, wild: wild, pos: x.Pos(), via: "store", partial: pathPartial(root, path)})
 				}
 			case *ssa.UnOp:
-				if x.Op != token.MUL || len(*x.Referrers()) == 0 {
+				if x.Op != token.MUL || len(*x.Referrers()) == 0 || pointerLike(x.Type()) || sliceLike(x.Type()) {
 					continue
 				}
 				if path, ok := stalePath(root, x.X); ok {
@@ -263,7 +269,7 @@ func (e *staleEngine) analyse(f *ssa.Function, root ssa.Value) *staleSummary {
 				args = append(args, c0.Args...)
 				name := e.p.staticCalleeName(c0)
 				cal := c0.StaticCallee()
-				hasBody := cal != nil && cal.Blocks != nil
+				hasBody := cal != nil && cal.Blocks != nil && isCirclFunc(cal) // the standard library is modelled, not analysed
 				extW := map[int]bool{}
 				for _, i := range externalWrites(name, len(args)) {
 					extW[i] = true
@@ -642,6 +648,19 @@ func init() {
 					checkMustWrite(c, p, prop+".modeinputs", "hpke", "Sender", m, []string{".state.modeID", ".state.skS", ".state.psk", ".state.pskID"}, "RFC 9180 SetupS takes exactly the inputs of its mode")
 					checkMustWrite(c, p, prop+".modeinputs", "hpke", "Receiver", m, []string{".state.modeID", ".state.pkS", ".state.psk", ".state.pskID", ".enc"}, "RFC 9180 SetupR takes exactly the inputs of its mode")
 				}
+			}
+		}
+	}
+}
+
+func init() {
+	prev := registry["C13"]
+	registry["C13"] = func(c *Ctx) {
+		prev(c)
+		if p := c.Prog("amd64"); p != nil {
+			c.Clauses = append(c.Clauses, "C13.destwrite: the group operations of the NIST-curve elements write both coordinates of the receiver on every path (no early return leaves the destination's previous value as the result)")
+			for _, m := range []string{"Add", "Dbl", "Neg", "Mul", "MulGen"} {
+				checkMustWrite(c, p, "C13.destwrite", "group", "wElt", m, []string{".x", ".y"}, "the receiver is the destination of the operation")
 			}
 		}
 	}
